@@ -117,6 +117,10 @@ func NewMultiEndpoint(b *MultiEndpointOptions) (MultiEndpoint, error) {
 	defer me.Unlock()
 	eMap := make(map[string]*endpoint)
 	for i, e := range b.Endpoints {
+		if _, listed := eMap[e]; listed {
+			// An endpoint listed more than once takes the priority of its first occurrence.
+			continue
+		}
 		eMap[e] = me.newEndpoint(e, i)
 	}
 	me.endpoints = eMap
@@ -163,7 +167,13 @@ func (me *multiEndpoint) SetEndpoints(endpoints []string) error {
 		}
 	}
 	// Add new endpoints and update priority.
+	seen := make(map[string]struct{}, len(endpoints))
 	for i, e := range endpoints {
+		if _, listed := seen[e]; listed {
+			// An endpoint listed more than once takes the priority of its first occurrence.
+			continue
+		}
+		seen[e] = struct{}{}
 		if _, ok := me.endpoints[e]; !ok {
 			me.endpoints[e] = me.newEndpoint(e, i)
 		} else {
